@@ -86,6 +86,10 @@ impl T {
         let sh = self.shape.as_slice();
         if self.dt == "f32" {
             Tensor::from_data(sh, self.data.iter().map(|v| *v as f32).collect::<Vec<_>>()).into()
+        } else if self.dt == "u8" {
+            Tensor::from_data(sh, self.data.iter().map(|v| *v as u8).collect::<Vec<_>>()).into()
+        } else if self.dt == "i8" {
+            Tensor::from_data(sh, self.data.iter().map(|v| *v as i8).collect::<Vec<_>>()).into()
         } else {
             Tensor::from_data(sh, self.data.iter().map(|v| *v as i32).collect::<Vec<_>>()).into()
         }
@@ -97,6 +101,8 @@ impl T {
             onnx::INT32 => TensorData::I32(d.iter().map(|v| *v as i32).collect()),
             onnx::INT64 => TensorData::I64(d.clone()),
             onnx::BOOL => TensorData::Bool(d.iter().map(|v| *v != 0).collect()),
+            onnx::UINT8 => TensorData::U8(d.iter().map(|v| *v as u8).collect()),
+            onnx::INT8 => TensorData::I8(d.iter().map(|v| *v as i8).collect()),
             other => panic!("unsupported onnx type {other}"),
         };
         onnx::Tensor {
@@ -111,7 +117,12 @@ impl T {
                "vals": if hv { self.data.clone() } else { vec![] }})
     }
     fn from_json(j: &J, ot: i32) -> T {
-        let dt = if j["dt"].as_str() == Some("f32") { "f32" } else { "i32" };
+        let dt = match j["dt"].as_str() {
+            Some("f32") => "f32",
+            Some("u8") => "u8",
+            Some("i8") => "i8",
+            _ => "i32",
+        };
         T {
             shape: j["shape"].as_array().unwrap().iter().map(|x| x.as_u64().unwrap() as usize).collect(),
             dt,
